@@ -193,7 +193,7 @@ Definition dec_case (input : sx) : option case :=
 
 Definition model_run (c : case) (fs : fsys) : fsys * sx * bool :=
   let '(st, e) := copy_top (k_opts c) all_selected (k_src c) fs (k_srcarg c) (k_dstarg c) in
-  (c_fs st, SL [SN (err_class e); enc_notifs (c_notifs st); enc_entries (fs_list (c_fs st))], c_stale st).
+  (c_fs st, SL [SN (err_class e); enc_notifs (c_notifs st); enc_entries (fs_list (c_fs st))], c_split st).
 
 (* canonical form of one implementation run *)
 Definition canon_run (r : sx) : option sx :=
@@ -208,23 +208,23 @@ Definition model_output2 (c : case) : sx * bool :=
   if k_second c then let '(_, r2, st2) := model_run c fs1 in (SL [r1; r2; src], st1 || st2) else (SL [r1; src], st1).
 Definition model_output (c : case) : sx := fst (model_output2 c).
 
-(* known-finding signature, computed from the case by the model: the copier's inode map
-   (source inode -> first destination PATH) went stale because a later wildcard match
-   overwrote that path; the next member of the link group is linked to the wrong file *)
-Definition sig_stale : bytes :=
-  [104;97;114;100;108;105;110;107;45;102;105;114;115;116;45;99;111;112;121;45;111;118;101;114;119;114;105;116;116;101;110].
+(* signature, computed from the case by the model: forgetLinkSources dropped the record of a
+   link group's copy (a later wildcard match replaced it) while another name of that copy
+   survives; the next member is copied afresh, so the group is spread over two inodes
+   (bytes and metadata of every name are right; only the inode partition differs) *)
+Definition sig_split : bytes :=
+  [104;97;114;100;108;105;110;107;45;103;114;111;117;112;45;115;112;108;105;116;45;97;102;116;101;114;45;111;118;101;114;119;114;105;116;101].
+(* only attached to a failure of the inode-partition clause *)
+Definition is_keys_info (info : sx) : bool :=
+  match info with
+  | SL (SB t :: _) =>
+    bytes_eqb t [105;110;111;100;101;115] ||
+    (bytes_eqb t [115;101;99;111;110;100] &&
+     match info with SL [_; SL (SB t2 :: _)] => bytes_eqb t2 [105;110;111;100;101;115] | _ => false end)
+  | _ => false
+  end.
 Definition with_sig (c : case) (info : sx) : sx :=
-  if snd (model_output2 c) then SL [SL [SB [115;105;103]; SB sig_stale]; info] else info.
-
-(* second known finding: Copy computes ensureDstPath from the UNCLEANED dst, so a dst ending in
-   ".." (a/x/..) makes MkdirAll create a/x although the copy lands in a: an entry the source
-   does not have appears below the landing path *)
-Definition sig_dotdot : bytes :=
-  [100;115;116;45;100;111;116;100;111;116;45;101;120;116;114;97;45;100;105;114;101;99;116;111;114;121].
-Definition dst_has_dotdot (c : case) : bool := existsb (bytes_eqb s_dotdot) (comps (k_dstarg c)).
-Definition with_sig_iso (c : case) (info : sx) : sx :=
-  if snd (model_output2 c) then SL [SL [SB [115;105;103]; SB sig_stale]; info]
-  else if dst_has_dotdot c then SL [SL [SB [115;105;103]; SB sig_dotdot]; info] else info.
+  if snd (model_output2 c) && is_keys_info info then SL [SL [SB [115;105;103]; SB sig_split]; info] else info.
 
 Definition canon_output (impl : sx) : option sx :=
   match impl with
@@ -383,7 +383,7 @@ Definition run_1301 (input impl : sx) : sx :=
         if ck_skip k then v_ok else
         if negb (src_unchanged c s) then verdict m ci false (with_sig c (tag t_source []))
         else if negb (ck_ok k) then verdict m ci false (with_sig c (ck_info k))
-        else if negb (check_iso c after (ck_landings k) (ck_merged k)) then verdict m ci false (with_sig_iso c (tag t_iso []))
+        else if negb (check_iso c after (ck_landings k) (ck_merged k)) then verdict m ci false (with_sig c (tag t_iso []))
         else verdict m ci true (SL [])
       | None => v_malformed
       end
